@@ -42,10 +42,10 @@ type vestEnv struct {
 	n *chain.Node
 	// the governance module account acting as a pool owner (its messages are executed the way
 	// an accepted proposal executes them); only used when govOwner is set
-	govKey             chain.Key
+	govKey chain.Key
 	// a key-less owner with a 32 byte address (the shape of group policy and interchain
 	// accounts); its messages take the same route as those of the governance account
-	longKey chain.Key
+	longKey            chain.Key
 	govOwner           bool
 	niceFees           bool // fees are multiples of 20 (see genOp0)
 	signBytesChecked   map[string]bool
@@ -193,6 +193,11 @@ func newVestEnvOpts(r *rand.Rand, opt vestOpts) (*vestEnv, error) {
 		il := new(big.Int).Add(gen.BigAmount(r, 20), big.NewInt(10))
 		sent := new(big.Int).Rand(r, new(big.Int).Add(new(big.Int).Div(il, big.NewInt(3)), big.NewInt(1)))
 		wd := big.NewInt(0)
+		if r.Intn(2) == 0 {
+			// part of the pool was withdrawn before (pools of earlier versions could be drawn
+			// on while locked; a genesis file carries whatever history the pool has)
+			wd = new(big.Int).Rand(r, new(big.Int).Add(new(big.Int).Div(il, big.NewInt(3)), big.NewInt(1)))
+		}
 		lockEnd := gen.Epoch.Add(time.Duration(1+r.Intn(48)) * time.Hour)
 		e.bounds = append(e.bounds, lockEnd)
 		return &vesttypes.VestingPool{Name: name, VestingType: e.types[r.Intn(len(e.types))].name, LockStart: gen.Epoch.Add(-time.Hour), LockEnd: lockEnd,
@@ -209,6 +214,21 @@ func newVestEnvOpts(r *rand.Rand, opt vestOpts) (*vestEnv, error) {
 	}
 	n.Record = opt.Record
 	e.n = n
+	if r.Intn(3) == 0 {
+		// a genesis file expresses periods in whole units; the store holds durations, and the
+		// types of earlier versions were carried over as durations: one type gets periods with
+		// a sub-second part (staged through the keeper before the first block)
+		ctx := n.Ctx()
+		vts := n.App.CfevestingKeeper.GetAllVestingTypes(ctx)
+		for i := range vts.VestingTypes {
+			if vts.VestingTypes[i].Name == "vt4" {
+				vts.VestingTypes[i].LockupPeriod += time.Duration(r.Intn(1_000_000_000))
+				vts.VestingTypes[i].VestingPeriod += time.Duration(r.Intn(1_000_000_000))
+				e.types[4].lockup, e.types[4].vesting = vts.VestingTypes[i].LockupPeriod, vts.VestingTypes[i].VestingPeriod
+			}
+		}
+		n.App.CfevestingKeeper.SetVestingTypes(ctx, vts)
+	}
 	return e, nil
 }
 
@@ -309,6 +329,8 @@ func (e *vestEnv) randRecipient(r *rand.Rand) string {
 		return e.owners[r.Intn(len(e.owners))].Bech()
 	case 7:
 		return e.baseEmpty.Bech()
+	case 8:
+		return e.govKey.Bech() // an existing module account that may receive coins
 	}
 	return e.fresh().Bech()
 }
@@ -387,6 +409,17 @@ func (e *vestEnv) genOp0(r *rand.Rand, now time.Time) vOp {
 	if e.profile == "split" && len(e.cvaKeys) > 0 && r.Intn(2) == 0 {
 		x = 62 + r.Intn(28) // split / move / delegate
 	}
+	// a vesting account with spendable coins may lock them in a pool of its own like anybody
+	// else; once it has one it sends and withdraws from it
+	if r.Intn(10) == 0 && len(e.cvaKeys) > 0 {
+		cand := e.cvaKeys[r.Intn(len(e.cvaKeys))]
+		if x < 14 || len(pools[cand.Bech()]) > 0 {
+			owner = cand
+			if fee != nil && !e.n.App.BankKeeper.SpendableCoins(e.n.Ctx(), owner.Addr).IsAllGTE(fee) {
+				fee = nil
+			}
+		}
+	}
 	switch {
 	case x < 14: // create pool
 		name := fmt.Sprintf("p%d", r.Intn(6))
@@ -408,7 +441,7 @@ func (e *vestEnv) genOp0(r *rand.Rand, now time.Time) vOp {
 		msg := &vesttypes.MsgCreateVestingPool{Owner: signer.Bech(), Name: name, Amount: sdk.NewIntFromBigInt(amt), Duration: d, VestingType: vt}
 		return vOp{kind: "create-pool", signer: signer, msg: msg, fee: fee, owner: signer.Bech(), pool: name, amount: amt, custom: true, desc: fmt.Sprintf("create-pool %s %s dur=%s type=%s", name, amt, d, vt)}
 	case x < 40: // send to vesting account
-		if len(pools[owner.Bech()]) == 0 || r.Intn(3) > 0 {
+		if (len(pools[owner.Bech()]) == 0 || r.Intn(3) > 0) && !e.isCVAKey(owner) {
 			// prefer an owner that has pools
 			for _, o := range e.owners {
 				if len(pools[o.Bech()]) > 0 && r.Intn(2) == 0 {
@@ -778,3 +811,12 @@ func decodeWithdrawn(data []byte) (sdk.Coin, bool) {
 }
 
 var _ = fw.JSON
+
+func (e *vestEnv) isCVAKey(k chain.Key) bool {
+	for _, c := range e.cvaKeys {
+		if c.Bech() == k.Bech() {
+			return true
+		}
+	}
+	return false
+}
